@@ -81,12 +81,43 @@ def run_case(case, opts):
             return None
         return cands[0] if cands else None
 
+    def enabled_later(agent, state, acc):
+        """a call of `agent` that is inapplicable in `state` but applicable once the members chosen so far have acted
+        (input selection only: such a member must be refused, whatever the others do to the accumulating state)"""
+        for name, params in acts:
+            if not params:
+                continue
+            for _ in range(6):
+                pools = [[o for o, t in objs if gen_ma.conforms(t, ty)] for _, ty in params[1:]]
+                if any(not pool for pool in pools):
+                    break
+                args = [agent] + [rng.choice(pool) for pool in pools]
+                try:
+                    op = pylib.new_operator(dom, name, args, prob.objects)
+                    if not op.is_applicable(state) and op.is_applicable(acc):
+                        return name, args
+                except Exception:  # noqa: BLE001
+                    pass
+        return None
+
     def joint_for(state, p_app=0.85):
         members = []
+        acc = state
         for ag in agents:
             r = rng.random()
-            c = None if r < 0.3 else calls_of(ag if r < 0.9 else None, state, rng.random() < p_app)
+            c = None
+            if r >= 0.3:
+                want = rng.random() < p_app
+                if not want and acc is not state and rng.random() < 0.7:
+                    c = enabled_later(ag, state, acc)
+                if c is None:
+                    c = calls_of(ag if r < 0.9 else None, state, want)
             members.append(["nop", []] if c is None else [c[0], c[1]])
+            if c is not None:
+                try:
+                    acc = pylib.new_operator(dom, c[0], c[1], prob.objects).apply(acc, allow_inapplicable_actions=True)
+                except Exception:  # noqa: BLE001
+                    pass
         return members
 
     converter = PlanConverter(dom)
